@@ -10,6 +10,7 @@
   `killw`, `releasemon`, `killtracer` interleaved with calls and queries.
 -/
 import TrompModel.Lemmas.InvChain
+import TrompModel.Lemmas.Nested
 
 namespace Tromp.C14
 open Tromp World
@@ -279,5 +280,17 @@ example : Reachable (World.run {} demoOps).1 := ⟨demoOps, rfl⟩
 example : ((World.run {} demoOps).1.legal (.move 0 1)) = true := by decide
 example : ((World.run {} demoOps).1.mocks 0).map (fun m => (m.active 0, m.saturated 0)) = some ([1, 0], []) := by decide
 example : (((World.run {} demoOps).1.step (.call 0 0 [3])).1.mocks 0).map (fun m => (m.active 0, m.saturated 0)) = some ([1], [0]) := by decide
+
+/-- **C14, re-entrancy.**  A side effect that calls a mock function while its own call is still being handled leads
+    to a world some plain script leads to (the same calls, outer first) — so every statement above about reachable
+    worlds holds during and after re-entrant calls, at any nesting depth. -/
+theorem reentrant_reachable {w : World} (h : Reachable w) (nest : NestMap) (fuel o f : Nat) (a : Args) :
+    Reachable (callN nest fuel w o f a).1 := by
+  obtain ⟨ops, rfl⟩ := h
+  obtain ⟨cs, hcs⟩ := (callN_world_is_run nest fuel).1 (World.run {} ops).1 o f a
+  exact ⟨ops ++ callOps cs, by rw [hcs, run_append]⟩
+
+theorem reentrant_WF {w : World} (h : Reachable w) (nest : NestMap) (fuel o f : Nat) (a : Args) :
+    WF (callN nest fuel w o f a).1 := reachable_WF (reentrant_reachable h nest fuel o f a)
 
 end Tromp.C14
